@@ -1,8 +1,11 @@
 import PedalModel.DriverLoop
+import PedalModel.FeedbackCoreWire
 open Pedal
 
-/- Line-protocol driver for C20: replace the stub dispatch with the model's request handlers. -/
+/- Line-protocol driver for C20 (feedback construction, format dispatch, override/restore). -/
 def dispatch : List String → String
+  | "session" :: ts => FeedbackCore.WireFC.handleSession ts
+  | "dispatch" :: ts => FeedbackCore.WireFC.handleDispatch ts
   | _ => "bad-request"
 
 def main : IO Unit := driverMain dispatch
